@@ -141,7 +141,7 @@ class BocWireWorld(World):
         return ('Leg fault-free: seeded DAG (1..60 cells, sharing, exotic cells incl. nested Merkle levels; leg big: up to 5000 cells) encoded by the reference encoder under drawn freedoms '
                 '(3 magics, index, cache bits, CRC, stored hashes none/some/all, size +0..3, offset width +0..7, random topological order, 1..3 roots); Cell.from_boc must return exactly '
                 'the denoted roots (count, order, structure, hash). Leg faults, EXHAUSTIVE per sampled encoding of length L: all L proper prefixes, 5 extensions, all 8L single-bit flips when '
-                'the encoding carries a CRC, and for every reference slot the values self / every earlier index / cells_num / field maximum written by a Byzantine encoder that recomputes the CRC. '
+                'the encoding carries a CRC, and for every reference slot the values self / every earlier index / cells_num / field maximum, and for every root-list entry cells_num / cells_num+1 / field maximum, written by a Byzantine encoder that recomputes the CRC. '
                 'The strict decoder is run on each damaged input: if it rejects, the library must raise; if it accepts nothing is asserted. '
                 'evaluations = parses executed; non-trivial = encodings on which at least one fault was delivered or a non-default freedom was used; distinct = distinct (freedom set, fault-kind set, shape class).')
 
@@ -192,6 +192,11 @@ class BocWireWorld(World):
                 vals = [ci] + list(range(ci)) + [n, maxv]
                 for v in vals:
                     self._deliver(ctx, cells, f, data, roots, {'kind': 'badref', 'cell': ci, 'slot': slot, 'value': v}, enc_op)
+        # ... and dangling entries in the root list (generic magic only: the legacy forms have no root list)
+        if f['magic'] == 'generic':
+            for k in range(len(roots)):
+                for v in (n, n + 1, maxv):
+                    self._deliver(ctx, cells, f, data, roots, {'kind': 'badroot', 'root': k, 'value': v}, enc_op)
 
     def replay(self, ctx, ops):
         cfg = ctx.cfg
@@ -233,6 +238,8 @@ class BocWireWorld(World):
             times = 2 if (kind != 'none' and (ctx.evals + 1) % 37 == 0) else 1
         if kind == 'badref':
             damaged = do_encode(cells, f, ref_override={(fault['cell'], fault['slot']): fault['value']})[0]
+        elif kind == 'badroot':
+            damaged = do_encode(cells, f, ref_override={('root', fault['root']): fault['value']})[0]
         else:
             damaged = apply_fault(data, fault)
         if kind != 'none':
@@ -275,6 +282,8 @@ class BocWireWorld(World):
             if kind == 'badref':
                 v, ci = fault['value'], fault['cell']
                 sub = 'self-reference' if v == ci else ('backward-reference' if v < ci else 'dangling-reference')
+            if kind == 'badroot':
+                sub = 'dangling-root'
             if kind == 'flip':
                 ctx.probe('flip-accepted')
             self._fail(ctx, enc_op, fault, 'corrupt-accepted', sub, 'damaged input (%s of a %d-byte encoding) returned %d cells instead of raising' % (_fdesc(fault), len(data), len(res)))
